@@ -56,7 +56,7 @@ Proof. vm_compute. reflexivity. Qed.
 (* the unchanged code (flag q_look_trunc on) loses the kept emission: finding F1 *)
 Example C05_F1_refuted :
   let toks := [97]%N in
-  run_top (mkQ true true true true true true true true false None) KRich toks (fun a b => (a, b)) 12 Emit (AndIs (Validate PTrue 3 Any) Any)
+  run_top (mkQ true true true true true true true true false false None) KRich toks (fun a b => (a, b)) 12 Emit (AndIs (Validate PTrue 3 Any) Any)
     = TRes (Some (Some (VTok 97%N))) []
   /\ sem_top KRich toks (fun a b => (a, b)) 12 (AndIs (Validate PTrue 3 Any) Any)
     = Some (Some (VTok 97%N), [mkErr (0, 1) (RCustom 3) []]).
